@@ -82,3 +82,4 @@ def run(chk):
     chk.require('numeric_extremes', 1000 * k)
     chk.require('arbitrary', 1000 * k)
     chk.min_cases = grid * k
+    chk.coverage(build('cov'), 300)       # thorough tier: gcov line coverage of the anchored sources under this workload
